@@ -181,7 +181,7 @@ func RunPivot(behs [][]Step, tr *Trace, env Env, sum *Summary) {
 					b.I32(refdemon.PivotSmbConnect).I32(1).Bytes(inner)
 					check(s.send(a, refdemon.Sub{Cmd: refdemon.CmdPivot, Req: 0, Body: b.B}), "Connect")
 				case "Restart":
-					if pan, to := guarded(func() { must(w.Restart()) }, 20*time.Second); pan != "" || to {
+					if pan, to := guarded(func() { must(w.Restart()) }, 150*time.Second); pan != "" || to {
 						if strings.Contains(pan, "harness-error") {
 							panic(pan)
 						}
